@@ -24,6 +24,11 @@ ATTRS = ['encoding', 'version', 'meta', 'meta_encoding', 'meta_format', 'preambl
          'line_endings', 'mimetype', 'content', 'length']
 VALUES = ['utf-8', 'dos', 'unix', 'mac', 'json', 'yaml', 'text/plain', 'text/html', 'text', 'binary', 'patch',
           '1.0', '2.0', '', 'x', 0, 4, -1, 10 ** 6, None, b'bytes', b'', {'k': 'v'}, {}, [], ['x'], 1.5, ('t',)]
+# near misses of the allowed choices (fragments, other case, padding): every one must be refused
+CHOICE_ATTRS = ['meta_format', 'preamble_line_endings', 'preamble_mimetype', 'diff_line_endings', 'diff_type', 'version']
+NEAR = ['', 'j', 'js', 'son', 'on', 'JSON', 'json ', ' json', 'jsonjson', 'uni', 'nix', 'do', 'os', 'DOS', 'unix\n', 'unixdos',
+        'tex', 'ext', 'text/', 'plain', 'text/plaintext/markdown', 'mark', 'bin', 'ary', 'Binary', 'textbinary', '1', '1.', '.0', '1.00',
+        '1.01.0', 'text/plain;', 'text/x-markdown']
 
 
 def run(run, replay=None):
@@ -52,6 +57,19 @@ def run(run, replay=None):
                 run.count((ci, fi, a, repr(v)), nontrivial=True)
             traces.append(h.trace(n, CHK))
             n += 1
+    # (1b) every choice-typed attribute x every near miss, at every container position
+    for lvl_ci_fi in ((0, 0), (1, 0), (1, 1)):
+        h = domdriver.History(cat)
+        h.new(**domgen.rand_container_attrs(rng, 0))
+        h.addc(1, **domgen.rand_container_attrs(rng, 1))
+        h.addf(1, 1, **domgen.rand_container_attrs(rng, 2))
+        ci, fi = lvl_ci_fi
+        for a in CHOICE_ATTRS:
+            for v in NEAR:
+                h.set(1, ci, fi, a, v)
+                run.count((ci, fi, a, repr(v)), nontrivial=True)
+        traces.append(h.trace(n, CHK))
+        n += 1
     # (2) unknown / invalid constructor keywords
     for _ in range(60 if quick else 800):
         h = domdriver.History(cat)
